@@ -6,6 +6,7 @@
   (`SA.Go.Res`).  The codecs are the `Codec` parameter of SA.Model.DnsServer.
 -/
 import SA.Model.DnsSessions
+import SA.Gen.C12Nul
 
 namespace SA.DnsClient
 open SA.Go SA.Go.Res SA.DnsServer
@@ -137,6 +138,12 @@ def errOf (rest : List Nat) : String :=
   | none => "OK"
   | some t => errName t
 
+/-- with the decoders' guard (regenerated fact `errTextNulRejected`) a NUL inside the text is a decode error (`none`) -/
+def errOfD (rest : List Nat) : Option String :=
+  match errText rest with
+  | none => if SA.Gen.errTextNulRejected then none else some "OK"
+  | some t => some (errName t)
+
 /-- strconv.ParseInt(two characters, 36, 16) as a uint16 -/
 def parseInt36 (s : List Nat) : Option Nat :=
   match s with
@@ -167,19 +174,19 @@ def decodeResponse (cd : Codec) (code down : Nat) (data : List Nat) : Res (Optio
         cd.decode 84 rest >>= fun dv => pure <| dv.bind fun val => (le32 val).bind fun (ver, r) =>
           match r with
           | [] => none
-          | st :: r' => some (if st % 2 = 1 then s!"v:{errOf r'}:{uid}:{ver}" else s!"v:OK:{uid}:{ver}")
+          | st :: r' => if st % 2 = 1 then (errOfD r').map (fun e => s!"v:{e}:{uid}:{ver}") else some s!"v:OK:{uid}:{ver}"
   else if code = 101 then -- 'e'
-    cd.decode 84 body >>= fun dv => pure <| dv.map fun val => s!"e:{errOf val}"
+    cd.decode 84 body >>= fun dv => pure <| dv.bind fun val => (errOfD val).map fun e => s!"e:{e}"
   else if code = 111 then -- 'o'
     cd.decode 84 body >>= fun dv => pure <| dv.bind fun val =>
       match val with
       | [] => none
-      | st :: r => some (if st % 2 = 1 then s!"o:{errOf r}" else "o:OK")
+      | st :: r => if st % 2 = 1 then (errOfD r).map (fun e => s!"o:{e}") else some "o:OK"
   else if code = 122 then -- 'z'
     cd.decode 84 body >>= fun dv => pure <| dv.bind fun val =>
       match val with
       | [] => none
-      | st :: r => some (if st % 2 = 1 then s!"z:{errOf r}:-" else s!"z:OK:{toHex r}")
+      | st :: r => if st % 2 = 1 then (errOfD r).map (fun e => s!"z:{e}:-") else some s!"z:OK:{toHex r}"
   else if code = 121 then -- 'y'
     if data.length > 1 then do
       let k ← idx data 1
@@ -193,14 +200,14 @@ def decodeResponse (cd : Codec) (code down : Nat) (data : List Nat) : Res (Optio
       match val with
       | [] => none
       | st :: r =>
-        if st % 2 = 1 then some s!"r:{errOf r}:0:-"
+        if st % 2 = 1 then (errOfD r).map (fun e => s!"r:{e}:0:-")
         else (le32 r).map fun (size, d) => s!"r:OK:{size}:{toHex d}"
   else if code = 99 then  -- 'c'
     cd.decode down body >>= fun dv => pure <| dv.bind fun val =>
       match val with
       | [] => none
       | st :: r =>
-        if st = 255 then some s!"c:{errOf r}:0:none"
+        if st = 255 then (errOfD r).map (fun e => s!"c:{e}:0:none")
         else if st = 1 then
           (le16 r).bind fun (ack, r1) => (le16 r1).map fun (seq, d) => s!"c:OK:{ack}:{pktStr (some (seq, d))}"
         else if st = 0 then (le16 r).map fun (ack, _) => s!"c:OK:{ack}:none"
@@ -257,6 +264,10 @@ def handle (toks : List String) : String :=
   -- the same line over a real socket (udp / tcp) to a real miekg server started by the real communicator
   | "net" :: _ :: rest => SA.DnsServer.handle rest
   | "cli" :: rest => handleCli rest
+  -- `clihs <dom> <letter> <nth> <payload>`: the real client's Handshake with one answer of the real server replaced:
+  -- whatever the answer, Handshake returns (C12's client clause; the decoders are total, every type assertion on a
+  -- response is checked)
+  | ["clihs", _, _, _, _] => "done"
   -- `dec|enc <code> …`: the real codec on one input / a swept range.  The codecs are parameters of the models and the
   -- theorems assume `Codec.Total`, so the model's answer is the hypothesis itself: the call returns.
   | "dec" :: _ :: _ => "RETURNS"
